@@ -239,6 +239,80 @@ func ruleFragmentSweep(p *Prog, l *Ledger, tier string) {
 			l.Fail(rule, name, key, loopPos(p, li), fmt.Sprintf("%s: the loop at %s inserts into the list but stops at %s, a bound computed before the loop: the cues that the insertions push beyond it are not visited in this pass, so a boundary is not cut in them", name, loopPos(p, li), bad))
 		}
 	}
+	// (e) inside the sweep, the scan over the cues starts at the first cue – or at a cursor that is only
+	// moved past a contiguous run of finished cues: start order is not end order, a finished cue listed
+	// after a running one says nothing about the running one
+	for _, li := range loops {
+		if li == sweep || !sweep.blocks[li.header] {
+			continue
+		}
+		// a counted loop whose counter indexes Items
+		for _, ins := range li.header.Instrs {
+			ph, ok := ins.(*ssa.Phi)
+			if !ok {
+				break
+			}
+			if !isIntegerT(ph.Type()) || !indexesItems(ph, li) {
+				continue
+			}
+			for i, e := range ph.Edges {
+				if li.blocks[li.header.Preds[i]] {
+					continue
+				}
+				key := l.Key(rule, name, "scan-start", phiName(ph))
+				if c, ok := constInt(e); ok {
+					if c <= 0 {
+						l.Prove(rule, name, key, loopPos(p, li), "the scan of a window starts at the first cue")
+					} else {
+						l.Fail(rule, name, key, loopPos(p, li), fmt.Sprintf("%s: the scan of a window starts at cue %d, not at the first one", name, c))
+					}
+					continue
+				}
+				cur, ok := e.(*ssa.Phi)
+				if !ok || cur.Block() != sweep.header {
+					l.Undecide(rule, name, key, loopPos(p, li), "the scan of a window starts at "+descOf(e)+", which is neither 0 nor a cursor carried by the sweep")
+					continue
+				}
+				// every update of the cursor is under `counter == cursor`
+				bad := ""
+				var chk func(v ssa.Value, from *ssa.BasicBlock, seen map[ssa.Value]bool)
+				chk = func(v ssa.Value, from *ssa.BasicBlock, seen map[ssa.Value]bool) {
+					if v == ssa.Value(cur) || seen[v] {
+						return
+					}
+					seen[v] = true
+					if p2, ok := v.(*ssa.Phi); ok {
+						for j, e2 := range p2.Edges {
+							chk(e2, p2.Block().Preds[j], seen)
+						}
+						return
+					}
+					contiguous := false
+					if from != nil {
+						for _, dc := range dominatingConds(from) {
+							bo, ok := dc.cond.(*ssa.BinOp)
+							if ok && bo.Op == token.EQL && dc.taken && ((bo.X == ssa.Value(ph) && isCursor(bo.Y, cur)) || (bo.Y == ssa.Value(ph) && isCursor(bo.X, cur))) {
+								contiguous = true
+							}
+						}
+					}
+					if !contiguous {
+						bad = descOf(v)
+					}
+				}
+				for j, e2 := range cur.Edges {
+					if sweep.blocks[sweep.header.Preds[j]] {
+						chk(e2, sweep.header.Preds[j], map[ssa.Value]bool{})
+					}
+				}
+				if bad == "" {
+					l.Prove(rule, name, key, loopPos(p, li), "the scan starts at a cursor that only moves past a contiguous run of finished cues")
+				} else {
+					l.Fail(rule, name, key, loopPos(p, li), fmt.Sprintf("%s: the scan of a window starts at a cursor (%s) that is moved to %s whenever a finished cue is met, not only while the finished cues form a prefix: a short cue listed after a long one finishes first, and the rest of the long cue, which sits before it, is never visited again", name, phiName(cur), bad))
+				}
+			}
+		}
+	}
 	// (d) the list installed by one trip of the sweep is not the buffer the next trip refills while
 	// reading it: s.Items = buf with buf = buf[:0] reused across trips makes the range over s.Items
 	// and the appends into buf walk the same array; with two elements appended for one element read
@@ -391,4 +465,31 @@ func endBoundKind(p *Prog, v ssa.Value) (string, string) {
 		return "max-scan", phiName(ph)
 	}
 	return "", ""
+}
+
+// indexesItems: the counter is used as index into a load of Subtitles.Items inside the loop.
+func indexesItems(ph *ssa.Phi, li *loopInfo) bool {
+	for _, r := range *ph.Referrers() {
+		if ia, ok := r.(*ssa.IndexAddr); ok && li.blocks[ia.Block()] {
+			if _, f, _ := loadedField(ia.X); f == "Items" {
+				return true
+			}
+		}
+	}
+	return false
+}
+
+// isCursor: v is the cursor phi or a merge that can only hold the cursor's values of this trip.
+func isCursor(v ssa.Value, cur *ssa.Phi) bool {
+	if v == ssa.Value(cur) {
+		return true
+	}
+	if p2, ok := v.(*ssa.Phi); ok {
+		for _, e := range p2.Edges {
+			if e == ssa.Value(cur) {
+				return true
+			}
+		}
+	}
+	return false
 }
